@@ -125,7 +125,13 @@ func (c Stop) NewWorker(stats *engine.Stats) (engine.Worker, error) {
 		if err := must(&n.P, &providertypes.MsgUpdateConsumer{Owner: A, ConsumerId: cid, InfractionParameters: &x}); err != nil {
 			return nil, err
 		}
-		p.K.AppendSlashAck(n.P.Ctx, cid, "slashack-"+cid)
+		cidRaw := cid
+		if err, pan := n.P.Raw("fixture-slash-ack", func(app env.ABCIApp, ctx sdk.Context) error {
+			env.PA(app).ProviderKeeper.AppendSlashAck(ctx, cidRaw, "slashack-"+cidRaw)
+			return nil
+		}); err != nil || pan != "" {
+			return nil, fmt.Errorf("fixture slash ack: %v %s", err, pan)
+		}
 	}
 	// two epochs with changes: two VSC packets in flight per consumer (never delivered here)
 	for i := 0; i < 2; i++ {
@@ -388,8 +394,19 @@ func (w *stWorker) build() {
 		if !ok || ch.State == channeltypes.CLOSED {
 			return false, nil
 		}
-		ch.State = channeltypes.CLOSED
-		p.PApp.IBCKeeper.ChannelKeeper.SetChannel(c.P.Ctx, ccv.ProviderPortID, l.PChan, ch)
+		pchan := l.PChan
+		_, _ = c.P.Raw("counterparty-closed-channel", func(app env.ABCIApp, ctx sdk.Context) error {
+			k := env.IBCK(app).ChannelKeeper
+			ch, ok := k.GetChannel(ctx, ccv.ProviderPortID, pchan)
+			if !ok {
+				return fmt.Errorf("no channel")
+			}
+			ch.State = channeltypes.CLOSED
+			k.SetChannel(ctx, ccv.ProviderPortID, pchan, ch)
+			return nil
+		})
 		return true, nil
 	})
 }
+
+func (w *stWorker) XWorldForTier2() *XWorld { return w.w }
